@@ -208,3 +208,28 @@ func Partner(k *Key) *Key {
 		P521Priv: P521Pub, P521Pub: P521Priv, Ed25519Prv: Ed25519Pub, Ed25519Pub: Ed25519Prv}
 	return Asym(m[k.Kind], k.Which)
 }
+
+// Clone returns the same key material behind a fresh jwk.Key. jwx keys carry
+// a lock that every accessor takes; giving each worker its own copy keeps 16
+// cores from contending on it.
+func (k *Key) Clone() *Key {
+	c := *k
+	switch {
+	case k.JWK == nil:
+	case k.Kind == Oct:
+		c.JWK = mustJWK(append([]byte(nil), k.Octets...))
+	case k.Family == "RSA" && k.Private:
+		c.JWK = mustJWK(k.RSA)
+	case k.Family == "RSA":
+		c.JWK = mustJWK(&k.RSA.PublicKey)
+	case k.Family == "Ed25519" && k.Private:
+		c.JWK = mustJWK(k.Ed25519)
+	case k.Family == "Ed25519":
+		c.JWK = mustJWK(k.Ed25519.Public())
+	case k.Private:
+		c.JWK = mustJWK(k.ECDSA)
+	default:
+		c.JWK = mustJWK(&k.ECDSA.PublicKey)
+	}
+	return &c
+}
